@@ -850,17 +850,22 @@ BUILTIN_NAMES = {'len', 'range', 'min', 'max', 'abs', 'int', 'float', 'bool', 't
 
 
 def loop_ordinals(fnode):
-    """loops of a function in source order -> ordinal (nested defs / comprehensions excluded)"""
+    """loops of a function in source order -> ordinal: for / while loops are numbered 0, 1, ...;
+    comprehensions separately 'c0', 'c1', ... (only those with effects need a contract), so that adding or
+    removing a pure comprehension does not renumber the loops (nested defs / lambdas excluded)"""
     out = {}
-    cnt = [0]
+    cnt = [0, 0]
 
     def rec(n):
         for c in ast.iter_child_nodes(n):
             if isinstance(c, (ast.FunctionDef, ast.Lambda, ast.ClassDef)):
                 continue
-            if isinstance(c, (ast.For, ast.While, ast.ListComp, ast.SetComp, ast.GeneratorExp, ast.DictComp)):
+            if isinstance(c, (ast.For, ast.While)):
                 out[id(c)] = cnt[0]
                 cnt[0] += 1
+            elif isinstance(c, (ast.ListComp, ast.SetComp, ast.GeneratorExp, ast.DictComp)):
+                out[id(c)] = 'c%d' % cnt[1]
+                cnt[1] += 1
             rec(c)
     rec(fnode)
     return out
